@@ -18,6 +18,7 @@ T3  FactoryJudge: the registry is READ from the real classes (is_<mode>(), suppo
 Python builds objects, calls the API and projects results; every verdict is TLC's.
 """
 import os
+import re
 import sys
 import time
 import types
@@ -604,6 +605,10 @@ def design_check(ctx):
             )
         if res.distinct < 100:
             raise MachineryError("T1 explored only %d states" % res.distinct)
+        # vacuity: no expression of the specification reached by the invariants may be left unevaluated
+        dead = re.findall(r"(line \d+, col \d+ to line \d+, col \d+ of module (?:MC)?Factory): 0\s*$", res.stdout, re.M)
+        if dead:
+            raise MachineryError("T1 %r never evaluates %s" % (c, dead[:5]))
 
 
 def enumerate_cases(ctx, bnd):
